@@ -72,6 +72,11 @@ func shapesProfile(name string, n, depth int, mon harness.Monitors, finish func(
 					Letter{fmt.Sprintf("Set(%s,0)", k), func(w *harness.World) { w.SetItem("x", k, 0, bs("low")) }},
 					Letter{fmt.Sprintf("Set(%s,%d)", k, n+1), func(w *harness.World) { w.SetItem("x", k, int32(n+1), bs("highest")) }})
 			}
+			// a new key in the middle of the key range, above and below everything
+			mid := []byte{keys[n/2][0], '5'}
+			ls = append(ls,
+				Letter{fmt.Sprintf("Set(%s,%d) new", mid, n+2), func(w *harness.World) { w.SetItem("x", mid, int32(n+2), bs("new-top")) }},
+				Letter{fmt.Sprintf("Set(%s,0) new", mid), func(w *harness.World) { w.SetItem("x", mid, 0, bs("new-bottom")) }})
 			ls = append(ls, Letter{"Flush", func(w *harness.World) { w.Flush() }},
 				Letter{"Evict", func(w *harness.World) { w.Evict("x") }},
 				Letter{"Reopen", func(w *harness.World) { w.Reopen(true); ensureX(w) }})
@@ -80,5 +85,5 @@ func shapesProfile(name string, n, depth int, mon harness.Monitors, finish func(
 }
 
 func shapesRule(n, depth int) string {
-	return fmt.Sprintf("every treap shape over %d keys (every ranking of %d distinct priorities) x {dirty, flushed, flushed and re-opened} x every history of length <= %d over Delete of each key (join of every pair of subtree shapes), overwrite of each key with the lowest / the highest priority and a value of another length (split/union through every shape), Flush, Evict, Reopen", n, n, depth)
+	return fmt.Sprintf("every treap shape over %d keys (every ranking of %d distinct priorities) x {dirty, flushed, flushed and re-opened} x every history of length <= %d over Delete of each key (join of every pair of subtree shapes), overwrite of each key with the lowest / the highest priority and a value of another length, insertion of a new key in the middle of the range as the new root and as a new leaf (split/union through every shape), Flush, Evict, Reopen", n, n, depth)
 }
